@@ -185,6 +185,12 @@ func runC05JobsResult(c *Ctx) {
 	} else {
 		c.bad(construct, jobs.Pos(), "needs.<job_id> has the member(s) "+strings.Join(missing, ", ")+" which jobs.<job_id> lacks: `jobs.build.result` in a workflow_call output is reported as undefined although the job exists")
 	}
+	// every job of the workflow gets such an object, with the outputs of that very job
+	if pos, why := jobsScopeEntries(jobs); why == "" {
+		c.ok("(*RuleExpression).checkWorkflowCallOutputs|an entry for every job", pos, "entered on every iteration of the loop over the jobs, with the outputs of the job found under the same key")
+	} else {
+		c.bad("(*RuleExpression).checkWorkflowCallOutputs|an entry for every job", pos, "jobs.<job_id> is not defined for every job with that job's declared outputs ("+why+"): a reference to an existing job or output in a workflow_call output value is reported as undefined")
+	}
 }
 
 // ---- C07.NULLVALPOS ----
